@@ -213,6 +213,19 @@ end HeaderSet
 section Headers
 open Hdr
 
+/-- `Headers.set` (the `for … else` loop with its replace-first / delete-rest slice assignment) is
+exactly its documented meaning `specSet`: the first entry of the key is replaced in place, every
+later entry of the key is dropped, and without an entry the pair is appended. Every other keyed
+mutator (`setlist`, `setdefault`, `update`, `h[k] = v`, …) is defined through `set` / `add`. -/
+theorem headers_set_eq_spec (l : HList) (k v : Str) (hv : hasNL v = false) :
+    Hdr.set l k v = (specSet l k v, .ok ()) :=
+  set_eq_spec l k v hv
+
+/-- `add` appends: the key's values gain `v` at the end, nothing else moves -/
+theorem headers_add (l : HList) (k v : Str) (hv : hasNL v = false) :
+    (Hdr.add l k v).1 = l ++ [(k, v)] ∧ getlist (Hdr.add l k v).1 k = getlist l k ++ [v] := by
+  simp [Hdr.add, strHeaderValue, hv, getlist, List.filter_append, keyEq_self]
+
 /-- after `headers.set(k, v)` (newline-free `v`) the key has exactly the one value `v` -/
 theorem headers_set_getlist (l : HList) (k v : Str) (hv : hasNL v = false) :
     getlist (Hdr.set l k v).1 k = [v] ∧ (Hdr.set l k v).2 = .ok () := by
@@ -230,6 +243,47 @@ theorem headers_set_others_unchanged (l : HList) (k v : Str) (hv : hasNL v = fal
   rcases set_cases l k v hv with ⟨r, hs, he⟩ | ⟨_, he⟩
   · rw [he]; exact setLoop_filter_other k v l r hs
   · rw [he]; simp [List.filter_append, keyEq_self]
+
+/-- `setlist(k, vs)` with newline-free values: afterwards `getlist k = vs`, and the entries of
+other keys (and their order) are unchanged; `setlist(k, [])` removes the key -/
+theorem headers_setlist (l : HList) (k : Str) (vs : List Str) (hvs : ∀ v ∈ vs, hasNL v = false) :
+    getlist (Hdr.setlist l k vs).1 k = vs ∧
+    (Hdr.setlist l k vs).1.filter (fun p => !keyEq k p) = l.filter (fun p => !keyEq k p) := by
+  have addAll_ok : ∀ (l : HList) (t : List Str), (∀ v ∈ t, hasNL v = false) →
+      Hdr.addAll l k t = (l ++ t.map (fun v => (k, v)), .ok ()) := by
+    intro l t
+    induction t generalizing l with
+    | nil => intro _; simp [Hdr.addAll]
+    | cons v t ih =>
+      intro h
+      have hv := h v List.mem_cons_self
+      simp only [Hdr.addAll, Hdr.add, strHeaderValue, hv, Bool.false_eq_true, if_false]
+      rw [ih _ (fun w hw => h w (List.mem_cons_of_mem _ hw))]
+      simp
+  cases vs with
+  | nil => simp [Hdr.setlist, getlist, delKey, List.filter_filter]
+  | cons v t =>
+    have hv := hvs v List.mem_cons_self
+    have ht : ∀ w ∈ t, hasNL w = false := fun w hw => hvs w (List.mem_cons_of_mem _ hw)
+    simp only [Hdr.setlist, set_eq_spec l k v hv, addAll_ok _ t ht]
+    have h1 := (headers_set_getlist l k v hv).1
+    have h2 := headers_set_others_unchanged l k v hv
+    rw [set_eq_spec l k v hv] at h1 h2
+    simp only at h1 h2
+    constructor
+    · simp only [getlist, List.filter_append, List.map_append] at h1 ⊢
+      rw [h1]
+      have : (t.map fun v => (k, v)).filter (keyEq k) = t.map fun v => (k, v) := by
+        rw [List.filter_eq_self]; intro p hp
+        obtain ⟨w, _, hw⟩ := List.mem_map.1 hp
+        subst hw; exact keyEq_self k w
+      simp [this, Function.comp_def]
+    · rw [List.filter_append, h2]
+      have : (t.map fun v => (k, v)).filter (fun p => !keyEq k p) = [] := by
+        rw [List.filter_eq_nil_iff]; intro p hp
+        obtain ⟨w, _, hw⟩ := List.mem_map.1 hp
+        subst hw; simp [keyEq_self]
+      simp [this]
 
 /-- ... hence `getlist` of any other key is unchanged -/
 theorem headers_set_getlist_other (l : HList) (k k' v : Str) (hv : hasNL v = false)
